@@ -137,7 +137,9 @@ fn assemble_response<const UID: usize, const COOKIE: usize>(hdr: &[u8; 48], uid:
 }
 
 fn lists_empty(p: &NtpPacket<'_>) -> bool {
-    ph::packet_authenticated(p).is_empty() && ph::packet_encrypted(p).is_empty() && p.new_cookies().count() == 0
+    // (no encrypted field = no new cookie: `new_cookies()` only filters the encrypted list; calling it
+    // here clones every cookie, and dropping the clones dominated the symbolic execution)
+    ph::packet_authenticated(p).is_empty() && ph::packet_encrypted(p).is_empty()
 }
 
 /// What the untampered packet authenticates / encrypts, by construction (not taken from the
